@@ -58,7 +58,10 @@ def r_sides(idx, rep, modules, rule="R-SIDES", floor=10, assignments=True):
                         used = _sides_in(v, names)
                         if not used:
                             continue
-                        wrong = sorted(n for n, k in used if k != s[1])
+                        # a stem that occurs with BOTH sides is a coupled formula (t1 = (a12*b2 - b1)/det); a stem that occurs only with the other
+                        # side is the slip
+                        stems_ok = {_SIDED.match(n).group(1) for n, k in used if k == s[1]}
+                        wrong = sorted(n for n, k in used if k != s[1] and _SIDED.match(n).group(1) not in stems_ok)
                         key = "%s|%s <- side %s only" % (f.key, base.id, s[1])
                         rep.check(not wrong, rule, key, "%s:%d" % (m.relpath, st.lineno),
                                   "`%s` computes the side-%s quantity `%s` from %s, which belong to the other side (copy-paste slip between the two symmetric lines)"
